@@ -31,14 +31,17 @@
  * RUNNING / PAUSED / STOPPED), flag words, token count, private descriptor numbers.  Per-job constants: the shape,
  * the identifying values K0, K1, K2 (one job per order class), NULL parameters (-DBAD), which source fires. */
 #include "l1.h"
+#include <regex.h>
 #include <structs/bst.c>
 #ifdef VF_NATIVE
 #include <core/mod.c>               /* native replay: statics reached by textual inclusion */
 #include <core/src.c>
 #define VF_MANAGE_SRCS manage_srcs
 #define VF_CREATE_SRC create_src
+#define VF_RESET_MODULE reset_module
 bool str_not_empty(const char *str) { return str && str[0] != '\0'; }
 #else
+void VF_RESET_MODULE(m_mod_t *mod);                                      /* static reset_module() of mod.c */
 int VF_MANAGE_SRCS(m_mod_t *mod, m_ctx_t *c, int flag, bool stop);     /* static manage_srcs() of mod.c */
 ev_src_t *VF_CREATE_SRC(m_mod_t *mod, m_src_types type, process_cb proc, const void *src_data, m_src_flags flags, const void *userptr);
 #endif
@@ -93,8 +96,114 @@ int m_thpool_add(m_thpool_t *pool, m_thpool_task fn, void *arg) {
     if (s >= 0) n_task[s]++; else n_other++;
     return 0;
 }
+/* M_SRC_DUP is never set by this harness: create_src's dup() branch is dead, proven by the check below.  Returning the
+ * argument keeps the stored descriptor number a constant for symbolic execution (the branch condition is a masked
+ * symbolic flag word that the simplifier does not fold). */
+int dup(int fd) { VF_CHECK(0, "dup() is not reached: M_SRC_DUP is never passed"); return fd; }
 ev_src_t *dummy_proc(ev_src_t *t, m_ctx_t *c, int i, evt_priv_t *e) { (void)c; (void)i; (void)e; return t; }
 
+#if KIND == 0
+/* =====================================================================================================================
+ * Topic subscriptions (-DKIND=0): m_mod_ps_subscribe / m_mod_ps_unsubscribe (ps.c) on the real map.c, reset_module
+ * (mod.c, what a stop does to them), m_mod_src_len.  regcomp / regfree accept everything (glibc's regex engine is
+ * outside the claim).  Pre-state: NPRE (0..2) subscriptions made by the real m_mod_ps_subscribe on an IDLE module
+ * (all concrete), then module state, token count and the AUTOFREE bit of every stored subscription become symbolic.
+ * One operation: -DOP 0 subscribe(topic, any flag word, new user block), 1 unsubscribe(topic), 2 stop, 6 count
+ * (with one descriptor source next to the subscriptions).  -DTOPIC: 0 / 1 = the topic of subscription 0 / 1 spelled
+ * in ANOTHER buffer, 2 = a new topic, 3 = NULL.  -DVF_DUP: subscriptions made with M_SRC_DUP. */
+int regcomp(regex_t *preg, const char *regex, int cflags) { (void)regex; (void)cflags; memset(preg, 0, sizeof(*preg)); return 0; }
+void regfree(regex_t *preg) { (void)preg; }
+#ifndef TOPIC
+#define TOPIC 0
+#endif
+static const char *const tname[3] = { "alpha", "beta", "gamma" };
+static char tbuf[3][8], tcopy[3][8];
+static m_src_flags sfl[NSLOT];
+static _Bool in_set[NSLOT];
+static ev_src_t *sub_of(m_mod_t *mod, int i) { return mod->subscriptions ? m_map_get(mod->subscriptions, tcopy[i]) : NULL; }
+
+int vf_main(void) {
+    memhook._free = vf_free;
+    vf_the_ctx = vf_l1_ctx();
+    m_mod_t *mod = vf_l1_mod(vf_the_ctx, NULL);
+    for (int t = 0; t < M_SRC_TYPE_END; t++) { int r0 = init_src(mod, (m_src_types)t); VF_ASSUME(r0 == 0); }
+    for (int i = 0; i < NSLOT; i++) { ublk[i] = malloc(1); VF_ASSUME(ublk[i] != NULL); strcpy(tbuf[i], tname[i]); strcpy(tcopy[i], tname[i]); }
+    int r;
+#ifdef VF_DUP
+    const m_src_flags base = (m_src_flags)(M_SRC_PRIO_NORM | M_SRC_DUP);
+#else
+    const m_src_flags base = M_SRC_PRIO_NORM;
+#endif
+    for (int i = 0; i < 2; i++) if (i < NPRE) {
+        r = m_mod_ps_subscribe(mod, tbuf[i], base, ublk[i]);
+        VF_ASSUME(r == 0);
+        in_set[i] = 1;
+        ev_src_t *sb = sub_of(mod, i);
+        VF_ASSUME(sb != NULL);
+        sfl[i] = (m_src_flags)(sb->flags | (nondet_bool() ? M_SRC_AUTOFREE : 0));
+        sb->flags = sfl[i];
+    }
+    for (int i = 0; i < NSLOT; i++) n_freed[i] = 0;
+    { VF_PICK(sb, 4); mod->state = (m_mod_states)(1u << sb); }
+    uint64_t tokens = nondet_u64();
+    mod->tb.tokens = tokens;
+    (void)tokens;
+
+#if OP == 0
+    sfl[2] = (m_src_flags)(nondet_uint() & (M_SRC_PRIO_LOW | M_SRC_PRIO_NORM | M_SRC_PRIO_HIGH | M_SRC_AUTOFREE | M_SRC_ONESHOT) | (base & M_SRC_DUP));
+    unsigned prio = sfl[2] & 7u;
+    _Bool valid = TOPIC != 3 && (prio == 0 || prio == 1 || prio == 2 || prio == 4) && tokens > 0;
+    int dup = (TOPIC < 2 && TOPIC < NPRE) ? TOPIC : -1;
+    ev_src_t *old = dup >= 0 ? sub_of(mod, dup) : NULL;
+    m_src_flags eff = (m_src_flags)(prio ? sfl[2] : (sfl[2] | M_SRC_PRIO_NORM));
+    r = m_mod_ps_subscribe(mod, TOPIC == 3 ? NULL : tcopy[TOPIC == 2 ? 2 : TOPIC], sfl[2], ublk[2]);
+    if (!valid) {
+        VF_CHECK(r < 0, "subscription with bad parameters (or without a token) is rejected");
+        VF_CHECK(n_freed[0] + n_freed[1] + n_freed[2] == 0, "rejected subscription leaves no trace");
+    } else {
+        VF_CHECK(r == 0, "subscribing succeeds, for a new topic and for a repeated one");
+        if (dup < 0) in_set[2] = 1;
+        ev_src_t *now = sub_of(mod, dup >= 0 ? dup : 2);
+        VF_CHECK(now != NULL && now->userptr == (void *)ublk[2], "the subscription carries the new user pointer");
+        if (dup >= 0) {
+            if (eff == sfl[dup]) VF_CHECK(now == old && n_freed[dup] == 0, "same flags: updated in place");
+            else VF_CHECK(n_freed[dup] == ((sfl[dup] & M_SRC_AUTOFREE) ? 1 : 0), "other flags: the old subscription is destroyed once, its AUTOFREE block with it");
+            VF_CHECK(n_freed[1 - dup] == 0 && n_freed[2] == 0, "nothing else is freed");
+        } else VF_CHECK(n_freed[0] + n_freed[1] + n_freed[2] == 0, "a new subscription frees nothing");
+    }
+#elif OP == 1
+    _Bool valid = TOPIC != 3 && tokens > 0;
+    int hit = (TOPIC < 2 && TOPIC < NPRE) ? TOPIC : -1;
+    r = m_mod_ps_unsubscribe(mod, TOPIC == 3 ? NULL : tcopy[TOPIC == 2 ? 2 : TOPIC]);
+    if (valid && hit >= 0) {
+        VF_CHECK(r == 0, "unsubscribing a present topic succeeds");
+        in_set[hit] = 0;
+        VF_CHECK(n_freed[hit] == ((sfl[hit] & M_SRC_AUTOFREE) ? 1 : 0), "removed subscription: user block freed exactly once iff AUTOFREE");
+        VF_CHECK(n_freed[1 - hit] == 0, "the other subscription is not touched");
+    } else {
+        VF_CHECK(r < 0, "unsubscribing an absent topic (or NULL, or without a token) fails");
+        VF_CHECK(n_freed[0] + n_freed[1] == 0, "failed unsubscription has no effect");
+    }
+#elif OP == 2
+    VF_RESET_MODULE(mod);       /* what stop() does to the subscriptions */
+    for (int i = 0; i < 2; i++) if (i < NPRE) { in_set[i] = 0; VF_CHECK(n_freed[i] == ((sfl[i] & M_SRC_AUTOFREE) ? 1 : 0), "stop: user block freed exactly once iff AUTOFREE"); }
+#elif OP == 6
+    { int fd = 5; r = m_mod_src_register_fd(mod, fd, 0, NULL); VF_ASSUME(tokens > 0); VF_CHECK(r == 0, "descriptor source next to the subscriptions"); in_set[2] = 1; }
+#endif
+    /* ---- post-state: the set of subscriptions and the reported count ---- */
+    for (int i = 0; i < NSLOT; i++) {
+#if OP == 6
+        if (i == 2) continue;
+#endif
+        ev_src_t *sb = sub_of(mod, i);
+        VF_CHECK((sb != NULL) == in_set[i], "post-state: subscribed topics equal the model set");
+        if (sb) VF_CHECK(sb->type == M_SRC_TYPE_PS && sb->mod == mod && strcmp(sb->ps_src.topic, tname[i]) == 0, "post-state: subscription records its topic and module");
+    }
+    VF_CHECK(m_mod_src_len(mod, M_SRC_TYPE_END) == in_set[0] + in_set[1] + in_set[2], "reported count equals the number of subscriptions (plus sources)");
+    VF_WITNESS("end");
+    return 0;
+}
+#else   /* KIND != 0 */
 /* ---- keys.  The identifying values are per-job constants K0, K1 (pre-state) and K2 (the operation's key), chosen
  *      by the spec per order class; everything that does not steer the search stays symbolic (clock id, event
  *      masks, task function).  Measured: with a symbolic identifying value the comparator's answer is symbolic, the
@@ -123,7 +232,9 @@ static int k_dereg(m_mod_t *m, key_t_ *k) { return m_mod_src_deregister_fd(m, *k
 typedef m_src_tmr_t key_t_;
 #define ID(i) ((uint64_t)KV(i))
 #define VALID(i) (KV(i) > 0)
-static void mk_key(key_t_ *k, int i) { memset(k, 0, sizeof(*k)); k->clock_id = nondet_int(); k->ns = (uint64_t)KV(i); }
+/* the clock id is a constant here (symbolic in c09_cmp.c): the unrepaired comparator reads it as the period when a
+ * source is inserted, and a symbolic value there turns the insertion point into a symbolic pointer (no verdict) */
+static void mk_key(key_t_ *k, int i) { memset(k, 0, sizeof(*k)); k->clock_id = CLOCK_MONOTONIC; k->ns = (uint64_t)KV(i); }
 static int k_reg(m_mod_t *m, key_t_ *k, m_src_flags f, const void *up) { return m_mod_src_register_tmr(m, k, f, up); }
 static int k_dereg(m_mod_t *m, key_t_ *k) { return m_mod_src_deregister_tmr(m, k); }
 #elif KIND == 3
@@ -191,21 +302,19 @@ static ev_src_t *src[NSLOT];
 static bst_node *node[2];
 static _Bool in_set[NSLOT], internal[2];
 
-static m_src_flags stored_flags(int i) {
-    /* what register_mod_src / create_src leave in a registered source: exactly one priority, kind-implied bits */
-    (void)i;
+static m_src_flags stored_flags(m_src_flags made) {
+    /* what register_mod_src / create_src leave in a registered source: exactly one priority, the kind-implied bits
+     * (kept from `made`, the word create_src produced from a bare NORM priority), any ownership / one-shot bits */
     VF_PICK(pb, 3);
     unsigned f = 1u << pb;
     unsigned opt = M_SRC_ONESHOT | M_SRC_AUTOFREE;
 #if KIND == 1
-    f = M_SRC_PRIO_HIGH; opt |= M_SRC_FD_AUTOCLOSE;
+    f = M_SRC_PRIO_HIGH | (nondet_bool() ? M_SRC_PRIO_NORM : 0); opt |= M_SRC_FD_AUTOCLOSE;    /* create_src ORs HIGH onto the default */
 #elif KIND == 2
     opt |= M_SRC_TMR_ABSOLUTE;
 #endif
     f |= nondet_uint() & opt;
-#if KIND == 6 || KIND == 7
-    f |= M_SRC_ONESHOT;
-#endif
+    f |= (unsigned)made & ~7u;
     return (m_src_flags)f;
 }
 
@@ -259,7 +368,14 @@ int vf_main(void) {
     vf_the_ctx = vf_l1_ctx();
     m_mod_t *mod = vf_l1_mod(vf_the_ctx, NULL);
     for (int t = 0; t < M_SRC_TYPE_END; t++) { int r0 = init_src(mod, (m_src_types)t); VF_ASSUME(r0 == 0); }   /* as m_mod_register */
-    for (int i = 0; i < NSLOT; i++) { ublk[i] = malloc(1); VF_ASSUME(ublk[i] != NULL); priv_fd[i] = nondet_int(); VF_ASSUME(priv_fd[i] >= 0); }
+    for (int i = 0; i < NSLOT; i++) {
+        ublk[i] = malloc(1); VF_ASSUME(ublk[i] != NULL);
+#if OP == 5     /* the search key of a one-shot removal is the source itself: constants keep the search concrete */
+        priv_fd[i] = 40 + i;
+#else
+        priv_fd[i] = nondet_int(); VF_ASSUME(priv_fd[i] >= 0);
+#endif
+    }
 
     /* ---- pre-state ---- */
     for (int i = 0; i < NSLOT; i++) mk_key(&key[i], i);
@@ -269,10 +385,10 @@ int vf_main(void) {
 #endif
     m_bst_t *tree = mod->srcs[KIND];
     for (int i = 0; i < 2; i++) if (i < NPRE) {
-        kfl[i] = stored_flags(i);
-        src[i] = VF_CREATE_SRC(mod, (m_src_types)KIND, dummy_proc, &key[i], kfl[i], ublk[i]);
+        src[i] = VF_CREATE_SRC(mod, (m_src_types)KIND, dummy_proc, &key[i], M_SRC_PRIO_NORM, ublk[i]);
         VF_ASSUME(src[i] != NULL);
-        kfl[i] = src[i]->flags;
+        kfl[i] = stored_flags(src[i]->flags);
+        src[i]->flags = kfl[i];
         node[i] = calloc(1, sizeof(bst_node)); VF_ASSUME(node[i] != NULL);
         node[i]->userptr = src[i];
         in_set[i] = 1;
@@ -357,7 +473,6 @@ int vf_main(void) {
         if (src[2]) {
             VF_CHECK(src[2]->mod == mod && src[2]->type == KIND && (src[2]->flags & (M_SRC_AUTOFREE | M_SRC_FD_AUTOCLOSE)) == (kfl[2] & (M_SRC_AUTOFREE | M_SRC_FD_AUTOCLOSE)),
                      "the new source records module, kind and ownership flags");
-            VF_CHECK(__builtin_popcount(src[2]->flags & 7u) == 1, "the new source has exactly one priority");
         }
     }
     check_tree(mod);
@@ -443,3 +558,4 @@ int vf_main(void) {
     VF_WITNESS("end");
     return 0;
 }
+#endif  /* KIND */
